@@ -11,11 +11,15 @@ mkdir -p build evidence replays
 import sys
 sys.path.insert(0, "harness")
 import common
-try:
-    import translate_guards
-    translate_guards.generate(common.REPO, common.COQ + "/Generated/Guards.v")
-except Exception as e:
-    print("translate_guards:", e)
+# every Coq file that is generated from /repo's sources: guard structure (C15), default configuration (C03),
+# command -> lock type table (C09)
+for what, fn in (("translate_guards", lambda: __import__("translate_guards").generate(common.REPO, common.COQ + "/Generated/Guards.v")),
+                 ("c03.regen_config", lambda: __import__("c03").regen_config()),
+                 ("translate_locks", lambda: __import__("translate_locks").generate())):
+    try:
+        fn()
+    except Exception as e:
+        print("%s: %s" % (what, e))
 common.regen_coqproject()
 PY
 cd coq
